@@ -48,15 +48,32 @@ pub struct CaseOut {
     pub classes: Vec<&'static str>,
     /// the rendered case: (field, text)
     pub render: Vec<(&'static str, String)>,
+    /// a run-away next() (step fuel of verif-hooks used up) is a violation of this property:
+    /// only set by checks whose reference run has shown that the program terminates
+    pub fuel_is_violation: bool,
+    /// a panic inside the crate is a violation of this property (parse: C09/C12, bind: C11,
+    /// run: C10, faulty driver: C13, .dig: C16); elsewhere it only means that the property's
+    /// observable could not be produced, and the case is discarded (counted)
+    pub owns_panics: bool,
 }
 
 impl CaseOut {
     pub fn new() -> Self {
-        CaseOut { verdict: Verdict::Pass, nontrivial: false, classes: vec![], render: vec![] }
+        CaseOut { verdict: Verdict::Pass, nontrivial: false, classes: vec![], render: vec![], fuel_is_violation: false, owns_panics: false }
     }
     pub fn fail(&mut self, key: impl Into<String>, msg: impl Into<String>) {
+        let key = key.into();
+        if key.contains("verif-hooks: fuel exhausted") && !self.fuel_is_violation {
+            // without a reference run nobody knows whether the program terminates at all
+            self.discard("fuel-exhausted");
+            return;
+        }
+        if key.starts_with("panic:") && !key.contains("verif-hooks: fuel exhausted") && !self.owns_panics {
+            self.discard("panic-owned-by-another-property");
+            return;
+        }
         if matches!(self.verdict, Verdict::Pass) {
-            self.verdict = Verdict::Fail { key: key.into(), msg: msg.into() };
+            self.verdict = Verdict::Fail { key, msg: msg.into() };
         }
     }
     pub fn discard(&mut self, why: &'static str) {
@@ -423,6 +440,7 @@ pub fn run_property(p: &dyn Property, tier: Tier, seed: u64) -> RunResult {
                         rng_seed: RngSeed::Fixed(seed_for(id, seed, w)),
                         failure_persistence: None,
                         max_shrink_iters: 3000,
+                        max_shrink_time: 20_000,
                         max_global_rejects: u32::MAX,
                         max_local_rejects: u32::MAX,
                         ..Config::default()
@@ -443,7 +461,15 @@ pub fn run_property(p: &dyn Property, tier: Tier, seed: u64) -> RunResult {
                         }
                         watch.slots[w].store(watch.start.elapsed().as_millis() as u64 + 1, Ordering::Relaxed);
                         let t0 = Instant::now();
-                        let out = p.run(&s);
+                        let out = match std::panic::catch_unwind(std::panic::AssertUnwindSafe(|| p.run(&s))) {
+                            Ok(o) => o,
+                            Err(_) => {
+                                // a bug of the harness itself: never a verdict about /repo
+                                let mut o = CaseOut::new();
+                                o.discard("harness-panic");
+                                o
+                            }
+                        };
                         watch.slots[w].store(0, Ordering::Relaxed);
                         if t0.elapsed().as_millis() > 3000 {
                             // a slow case is worth looking at: keep it
@@ -626,6 +652,9 @@ pub fn run_property(p: &dyn Property, tier: Tier, seed: u64) -> RunResult {
     if exit == 0 {
         if !infra.is_empty() {
             println!("INCONCLUSIVE property={id} harness problem: {}", infra.join("; "));
+            exit = 2;
+        } else if all.discards.get("harness-panic").copied().unwrap_or(0) > 0 {
+            println!("INCONCLUSIVE property={id} the harness itself panicked on {} case(s) (see stderr); not a violation", all.discards["harness-panic"]);
             exit = 2;
         } else if fuzz_inconclusive {
             println!("INCONCLUSIVE property={id} a fuzz campaign left timeout/oom artifacts (copied to replays/{id}/); not a violation");
